@@ -245,7 +245,7 @@ class Origins:
         out = self._ev(e, r, local)
         if not isinstance(e, (ast.Name, ast.IfExp, ast.BinOp, ast.Tuple, ast.List, ast.Set, ast.GeneratorExp, ast.ListComp, ast.SetComp)):
             transparent = isinstance(e, ast.Call) and (
-                (isinstance(e.func, ast.Name) and (e.func.id in HULL or e.func.id in ("list", "tuple", "set", "sorted", "frozenset")))
+                (isinstance(e.func, ast.Name) and (e.func.id in HULL or e.func.id in ("list", "tuple", "set", "sorted", "frozenset", "iter", "next", "reversed")))
                 or (isinstance(e.func, ast.Attribute) and e.func.attr in ("union", "copy"))
                 or txt(e.func) == "copy.deepcopy")
             transparent = transparent or (isinstance(e, ast.Subscript) and (isinstance(e.value, ast.Name) or (
@@ -322,7 +322,7 @@ class Origins:
                     for a in e.args:
                         out |= self.ev(a, r, local)
                     return out
-                if n in ("list", "tuple", "set", "sorted", "frozenset") and e.args:
+                if n in ("list", "tuple", "set", "sorted", "frozenset", "iter", "next", "reversed") and e.args:
                     return self.ev(e.args[0], r, local)
                 if self.is_helper(n):
                     h = self.fns[n]
